@@ -174,6 +174,39 @@ func c12(c *Ctx) {
 		}
 		return out
 	}
+	// unconditional: a store of the field with the right source lies on every path to a completing exit (a value that
+	// is restored only under a condition — "unless already configured" — is not restored)
+	unconditional := func(fn *ssa.Function, typ, field, sub string) bool {
+		for _, b := range fn.Blocks {
+			for _, in := range b.Instrs {
+				st, ok := in.(*ssa.Store)
+				if !ok {
+					continue
+				}
+				fa, ok := st.Addr.(*ssa.FieldAddr)
+				if !ok || an.FieldName(fa.X.Type(), fa.Field) != typ+"."+field || !an.NewDeps(c.inRepo).Of(st.Val).Has(sub) {
+					continue
+				}
+				all := true
+				for _, rb := range fn.Blocks {
+					ret, isRet := rb.Instrs[len(rb.Instrs)-1].(*ssa.Return)
+					if !isRet {
+						continue
+					}
+					if n := len(ret.Results); n > 0 && typeString(ret.Results[n-1].Type()) == "error" && an.NonNilError(ret.Results[n-1], rb) {
+						continue
+					}
+					if !an.InstrDominates(st, ret) {
+						all = false
+					}
+				}
+				if all {
+					return true
+				}
+			}
+		}
+		return false
+	}
 	depsHas := func(vs []ssa.Value, sub string) bool {
 		for _, v := range vs {
 			if an.NewDeps(c.inRepo).Of(v).Has(sub) {
@@ -202,25 +235,25 @@ func c12(c *Ctx) {
 	if ws != nil {
 		st := storesInto(ws, "session.tokenStorageFormat")
 		for _, f := range fields {
-			r.Check(depsHas(st[fileField[f]], "field:session.Session."+f), "R12.C", "writeSession:"+f, c.pos(ws.Pos()), "file field "+fileField[f]+" is computed from Session."+f)
+			r.Check(depsHas(st[fileField[f]], "field:session.Session."+f) && unconditional(ws, "session.tokenStorageFormat", fileField[f], "field:session.Session."+f), "R12.C", "writeSession:"+f, c.pos(ws.Pos()), "file field "+fileField[f]+" is computed from Session."+f+" on every path")
 		}
 	}
 	if rs != nil {
 		st := storesInto(rs, "session.Session")
 		for _, f := range fields {
-			r.Check(depsHas(st[f], "field:session.tokenStorageFormat."+fileField[f]), "R12.C", "readSession:"+f, c.pos(rs.Pos()), "Session."+f+" is computed from file field "+fileField[f])
+			r.Check(depsHas(st[f], "field:session.tokenStorageFormat."+fileField[f]) && unconditional(rs, "session.Session", f, "field:session.tokenStorageFormat."+fileField[f]), "R12.C", "readSession:"+f, c.pos(rs.Pos()), "Session."+f+" is computed from file field "+fileField[f]+" on every completing path")
 		}
 	}
 	if sv != nil {
 		st := storesInto(sv, "session.Session")
 		for _, f := range fields {
-			r.Check(depsHas(st[f], "field:mtproto.MTProto."+mtField[f]), "R12.C", "SaveSession:"+f, c.pos(sv.Pos()), "Session."+f+" ← MTProto."+mtField[f])
+			r.Check(depsHas(st[f], "field:mtproto.MTProto."+mtField[f]) && unconditional(sv, "session.Session", f, "field:mtproto.MTProto."+mtField[f]), "R12.C", "SaveSession:"+f, c.pos(sv.Pos()), "Session."+f+" ← MTProto."+mtField[f]+" on every path")
 		}
 	}
 	if ld != nil {
 		st := storesInto(ld, "mtproto.MTProto")
 		for _, f := range fields {
-			r.Check(depsHas(st[mtField[f]], "field:session.Session."+f), "R12.C", "LoadSession:"+f, c.pos(ld.Pos()), "MTProto."+mtField[f]+" ← Session."+f)
+			r.Check(depsHas(st[mtField[f]], "field:session.Session."+f) && unconditional(ld, "mtproto.MTProto", mtField[f], "field:session.Session."+f), "R12.C", "LoadSession:"+f, c.pos(ld.Pos()), "MTProto."+mtField[f]+" ← Session."+f+" on every path")
 		}
 	}
 	// encoder / decoder pairs
